@@ -80,6 +80,14 @@ Lemma eval_value_plain fuel sc v :
   forallb is_VT v = true -> eval_value (S fuel) sc v = ROk (map tok_str v).
 Proof. intros H. cbn [eval_value]. now apply eval_toks_plain. Qed.
 
+(* table fact: the round limit of Node.process is positive (the regenerated constant) *)
+Lemma tf_value_fuel_pos : Nat.ltb 0 value_fuel = true.
+Proof. vm_compute. reflexivity. Qed.
+Lemma eval_value_plain_vf sc v : forallb is_VT v = true -> eval_value value_fuel sc v = ROk (map tok_str v).
+Proof.
+  pose proof tf_value_fuel_pos as H. destruct value_fuel as [|f]; [discriminate|]. apply eval_value_plain.
+Qed.
+
 (* ---- what gets printed, as a list of (selector, declarations) groups ---- *)
 Definition group := (list part * list obj)%type.
 Fixpoint groups (o : obj) : list group :=
@@ -156,7 +164,7 @@ Theorem eval_rules_only :
 Proof.
   induction n as [nm v i|nm v|t|s body IH|sel body IH] using node_ind'; intros Hro parent sc; try contradiction.
   - cbn [rules_only] in Hro. eexists. split.
-    + cbn [eval_node]. rewrite preprocess_plain by assumption. unfold value_fuel. rewrite eval_value_plain by assumption. reflexivity.
+    + cbn [eval_node]. rewrite preprocess_plain by assumption. rewrite eval_value_plain_vf by assumption. reflexivity.
     + reflexivity.
   - apply rules_only_body in Hro as [Hsel Hbody].
     cbn [eval_node]. rewrite (plain_not_subparse sel Hsel).
